@@ -40,6 +40,43 @@ pub fn c01(c: &mut Ctx, b: &Budget) {
         }
         c.end();
     }
+    // the decoded route with the assertion elements of the encoding out of order, obscured ones included: the decoder may
+    // refuse it (it does); if it ever accepts, what it returns must still carry specification digests and be the envelope
+    // the API builds from the same parts
+    for _ in 0..(b.scenarios / 4).max(5) {
+        c.begin("decoded-out-of-order");
+        let s = gen_leaf(c, &cfg);
+        let mut e = s.clone();
+        for _ in 0..c.rng.range(2, 4) { let a = gen_assertion(c, &cfg, 1); e = c.assign(&format!("add {} {}", e, a)); }
+        // obscure one or two of the assertion elements
+        if let Some(env) = c.env(&e) {
+            let n = env.assertions().len();
+            if n >= 2 {
+                let mut targets = vec![];
+                for _ in 0..c.rng.range(1, 2) { let i = c.rng.below(n); targets.push(c.assign(&format!("at {} a{}", e, i))); }
+                let act = gen_action(c);
+                let o = c.assign(&format!("elide_set {} rem {} {}", e, act, targets.join(",")));
+                if c.is_ok(&o) { e = o; }
+            }
+        }
+        if let Some(env) = c.env(&e) {
+            let tree = CBOR::try_from_data(env.tagged_cbor().to_cbor_data()).unwrap();
+            if let CBORCase::Tagged(_, inner) = tree.as_case() { if let CBORCase::Array(xs) = inner.as_case() { if xs.len() >= 3 {
+                let mut v = xs.clone();
+                match c.rng.below(3) { 0 => v[1..].reverse(), 1 => { let k = v.len() - 1; v.swap(1, k); } _ => { v[1..].rotate_left(1); } }
+                let bytes = CBOR::to_tagged_value(200u64, CBOR::from(CBORCase::Array(v))).to_cbor_data();
+                let d = c.assign(&format!("decode {}", hex::encode(&bytes)));
+                c.count("branch:decoded-out-of-order");
+                if let Some(x) = c.env(&d) {
+                    observe_env(c, &d, false);
+                    let r = check_spec_digests(&x);
+                    c.check("spec-digest", r.is_ok(), "spec-digest", || format!("{} in the decoded {}", r.unwrap_err(), shape(&x)));
+                    c.check("route-independent", x.digest() == env.digest(), "route-independent", || format!("decoded from reordered elements: {} vs built {}", shape(&x), shape(&env)));
+                }
+            } } }
+        }
+        c.end();
+    }
     // route independence: the same content assembled along two routes
     for _ in 0..(b.scenarios / 4).max(5) {
         c.begin("routes");
@@ -405,6 +442,16 @@ pub fn c06(c: &mut Ctx, b: &Budget) {
     let mut cfg = GenCfg::default();
     cfg.small_alphabet = false;
     for (name, bytes) in handmade() { decode_case(c, "handmade", name, &bytes); }
+    // the deprecated leaf tag #6.24 around every leaf of the alphabet, and around a byte string holding that leaf's encoding
+    // (which "tag 24 = encoded CBOR" readers would unpack): read as #6.201 of the very same item, nothing else
+    for l in leaf_alphabet() {
+        let item = hex::decode(&l).unwrap();
+        let mut direct = vec![0xd8, 0xc8, 0xd8, 0x18]; direct.extend_from_slice(&item);
+        decode_case(c, "legacy-tag", "legacy-24-direct", &direct);
+        let bs = CBOR::to_byte_string(item.clone()).to_cbor_data();
+        let mut embedded = vec![0xd8, 0xc8, 0xd8, 0x18]; embedded.extend_from_slice(&bs);
+        decode_case(c, "legacy-tag", "legacy-24-embedded-bytes", &embedded);
+    }
     for i in 0..b.scenarios {
         // a valid envelope, built silently on a scratch context
         let mut scratch = Ctx::new("scratch", c.rng.next());
